@@ -44,7 +44,8 @@ MANIFEST = dict(
 )
 
 THEOREMS = ["C22_exit", "C22_exit_0_or_1", "C22_streams", "C22_e_is_file", "C22_args",
-            "C22_no_prelude_implies_no_init", "C22_stdin_ignored_without_inspect"]
+            "C22_no_prelude_implies_no_init", "C22_stdin_ignored_without_inspect",
+            "C22_repl_plain", "C22_repl_exit", "C22_failing_commands_do_not_matter", "C22_reset"]
 RS = "\x1e"
 
 
@@ -238,7 +239,7 @@ def run(chk):
              for n, (_, _, _, ft, ex) in enumerate(toy)]
     bad_model = common.coq_mismatches(["Session.Resolver", "Session.Context", "Session.Toy", "Session.CliExec",
                                        "Gen.CtxSkeleton"], items, "c22",
-                                      shard_size=max(8, -(-len(items) // common.NPROC)))
+                                      shard_size=min(150, max(8, -(-len(items) // common.NPROC))), timeout=2400)
 
     # ---- part 1b: arguments (init file, --no-init, -i, stdin) on miniature programs, model vs binary
     full = []       # (fields, job)
@@ -289,10 +290,36 @@ def run(chk):
               for n, (f, _) in enumerate(full)]
     bad_full = common.coq_mismatches(["Session.Resolver", "Session.Context", "Session.Toy", "Session.CliExec",
                                       "Gen.CtxSkeleton"], items2, "c22b",
-                                     shard_size=max(8, -(-len(items2) // common.NPROC)))
+                                     shard_size=min(150, max(8, -(-len(items2) // common.NPROC))), timeout=2400)
     for kk, v in bad_full.items():
         bad_model[len(items) + kk] = v
     toy_obs_all = toy_obs + full_obs
+
+    # ---- part 1c: REPL commands on stdin (quit / exit / reset / clear / save, commands with wrong arguments)
+    cmdc = []
+    BADCMD = ["list foo", "save a b", "quit now", "reset x", "help me", "info", "clear x", "exit 1"]
+    for n in range(30 if quick else 500):
+        lines, kind = gen_toy_program(rng)
+        exprs = list(lines) if rng.random() < 0.5 else None
+        flags = ("inspect",) if exprs is not None else ()
+        l2, _ = gen_toy_program(rng)
+        stdin_lines = list(l2)
+        for _ in range(rng.randrange(1, 4)):
+            r = rng.random()
+            c = (rng.choice(BADCMD) if r < 0.45 else "reset" if r < 0.65 else "clear" if r < 0.72 else
+                 "save " + os.path.join(home, "sv%d.nbt" % n) if r < 0.85 else rng.choice(["quit", "exit"]))
+            stdin_lines.insert(rng.randrange(len(stdin_lines) + 1), c)
+        fields = [("E", e) for e in exprs or []] + ([("i", "")] if exprs is not None else []) + [("Z", l) for l in stdin_lines]
+        cmdc.append((fields, (None, exprs, False, flags, "".join(l + "\n" for l in stdin_lines), None)))
+    cmd_res = run_many(cli, home, [j for _, j in cmdc])
+    cmd_obs = [observe(*r) for r in cmd_res]
+    items3 = [("show_cli_cmd_line current_skeleton %s" % common.coq_string(S.case_line(f)), cmd_obs[n])
+              for n, (f, _) in enumerate(cmdc)]
+    bad_cmd = common.coq_mismatches(["Session.Resolver", "Session.Context", "Session.Toy", "Session.CliExec",
+                                     "Gen.CtxSkeleton"], items3, "c22c",
+                                    shard_size=min(150, max(8, -(-len(items3) // common.NPROC))), timeout=2400)
+    for kk, v in bad_cmd.items():
+        bad_model[len(items) + len(items2) + kk] = v
 
     t2 = time.time()
     # ---- part 2: prelude programs, library vs binary, file vs -e
@@ -430,7 +457,10 @@ def run(chk):
             "first_case": None if k is None else (
                 {"mode": toy[k][2], "file": toy[k][3], "exprs": toy[k][4], "binary": toy_obs[k], "model": bad_model[k]}
                 if k < len(toy) else
-                {"fields": full[k - len(toy)][0], "binary": full_obs[k - len(toy)], "model": bad_model[k]}),
+                {"fields": full[k - len(toy)][0], "binary": full_obs[k - len(toy)], "model": bad_model[k]}
+                if k < len(toy) + len(full) else
+                {"fields": cmdc[k - len(toy) - len(full)][0], "binary": cmd_obs[k - len(toy) - len(full)],
+                 "model": bad_model[k]}),
         }, found_input=False)
 
     for _, kind, mode, _, _ in toy:
@@ -443,8 +473,8 @@ def run(chk):
             distinct.add((tuple(lines), mode))
     shutil.rmtree(home, ignore_errors=True)
     chk.cov.update({
-        "evaluations": len(toy) + len(full) + 2 * len(std) + len(init_jobs),
-        "argument_runs": len(full),
+        "evaluations": len(toy) + len(full) + len(cmdc) + 2 * len(std) + len(init_jobs),
+        "argument_runs": len(full), "repl_command_runs": len(cmdc),
         "distinct_nontrivial": len(distinct) + len(set(tuple(l) for l, _ in std if len(l) > 1)),
         "rule": "process runs of the real binary: miniature programs (1-7 statements, 55% with a failing statement of a "
                 "random kind at a random position) as file / one -e per line / two multi-line -e / file + -e, compared "
